@@ -6,7 +6,7 @@ import os
 VERIF = os.path.dirname(os.path.dirname(os.path.abspath(__file__)))
 
 TECH = {
- 'C01': 'static analysis: algebraic value numbering over MIR (normal-form identity evaluate ≡ Σcᵢxⁱ), fold schema for Horner, rounding-depth counters',
+ 'C01': 'static analysis: algebraic value numbering over MIR (normal-form identity evaluate ≡ Σcᵢxⁱ), fold schema for Horner, rounding-depth counters; no quotient whose divisor depends on an input',
  'C02': 'static analysis: value-numbered result of Piecewise::evaluate reduced to a piece index; loops closed into searches; one-search normal form (position, find, partition_point+min, index reduced by linear entailment) or, for any other shape, the index decided from its definition path by path (what each path knows about end_k > x must cover [0,i) and justify i)',
  'C03': 'static analysis: one-step transfer of the evaluator (loops closed into searches; slice or index cursor, fields found by role) translated to a hand-proved reference step: per direction one search with the reference domain, predicate, cursor and piece on found / not found; representation, direction and paired-update rules',
  'C04': 'static analysis: algebraic value numbering (Hermite and Kruger normal-form identities) + stream alignment of the zip/chain/skip assembly pipeline + domain clause (the only rejected inputs are fewer than three knots)',
@@ -14,8 +14,8 @@ TECH = {
  'C06': 'static analysis: the recurrence computed by linear() — as a stateful map, scan, loop, in-place pass over a copy followed by neighbouring pairs, or read back from the last piece — closed into a scan and checked against L(0)=knots[0], R=(max(L.x,k.x),k.y), L(i+1)=R(i), end=R.x, plus normal-form identities of the segment helper and the domain clause (the only rejected inputs are fewer than two knots)',
  'C07': 'static analysis: algebraic value numbering over MIR; normal-form identities for indefinite/integral lanes, d/dx identity, knot identity, degree bound on every intermediate power of knot.x in the constant term',
  'C08': 'static analysis: algebraic value numbering over MIR; lane normal forms, map/collect traversal schema, `end` value-number identity',
- 'C09': 'static analysis: algebraic value numbering over MIR + formal derivation in Q[c][t, ln t, 1/t] (D(F) = p(ln t))',
- 'C10': 'static analysis: algebraic value numbering (series coefficients, closed form, evaluate shape) + sound numeric bounds by directed-rounding interval arithmetic over the whole argument domain',
+ 'C09': 'static analysis: algebraic value numbering over MIR + formal derivation in Q[c][t, ln t, 1/t] (D(F) = p(ln t)); no quotient whose divisor depends on an input (degrees other than 4)',
+ 'C10': 'static analysis: algebraic value numbering (series coefficients, closed form, evaluate shape) + sound numeric bounds by directed-rounding interval arithmetic over the whole argument domain; no divisor in evaluate depends on the numbers of the form itself',
  'C11': 'static analysis: SCAN schema (stateful map summarised as a recurrence) for knot threading; sibling-iterator agreement; imported C07/C09 identities',
  'C12': 'static analysis: closure step transfer of evaluate_v on a symbolic cursor (integer or shrinking slice; first-index search, loop or take_while, with rebase; cursor and piece index reduced case by case with the search facts), lazy-map shape, pass-through',
  'C13': 'static analysis: merge-loop summary evaluated under the 12 guard assignments and compared with the reference merge table; Add/Sub sibling agreement',
